@@ -1,20 +1,15 @@
 (* Correspondence for C06: the FOps instance of Render/Sample.v (lattice arithmetic of
    MarchingCubesUniform.Render / marchingCubes / layerYZ) against a real render:
      - the coordinates at which the real renderer evaluated the field (per axis, in increasing
-       order) are the model's evaluation coordinates  base.X + x*dx, accumulated p.Y, p.Z  bit for bit
-       (so origin, cell sizes and cell counts agree);
+       order) are the model's evaluation coordinates  base.X + x*dx, accumulated p.Y, p.Z  (so origin,
+       cell sizes and cell counts agree) - bit for bit on the unchanged tree; a difference of at most
+       1e-12 of the box size still counts as agreement (harmless algebraic rewrites), reported as I_uni3;
      - the triangles the real renderer wrote (in order) are the model's: corner coordinates
        accumulated as in the code, values taken from the two-layer cache at y*(nz+1)+z. *)
 From Coq Require Import List ZArith NArith Floats Bool.
 From Sdfx Require Import Num.Ops Num.FInst Geo.Vec Geo.Box Generated.MarchTables
   Render.MC Render.MS Render.Lattice Render.Interp Render.Octree Render.Sample Render.C07Corr.
 Import ListNotations.
-
-Fixpoint index_of (x : float) (l : list float) (i : nat) : nat :=
-  match l with
-  | [] => i
-  | y :: r => if PrimFloat.eqb x y then i else index_of x r (S i)
-  end.
 
 (* id, box min, box max, meshCells, step, api?, (xs, ys, zs), layer values [x][y*(nz+1)+z], go triangles.
    api = true : MarchingCubesUniform{meshCells}.Render on a field with bounding box (min,max);
@@ -26,18 +21,31 @@ Definition ulattice (mn mx : f3) (cells : Z) (step : float) (api : bool) : latti
   if api then @mcu_lattice FOps (mkBox3 (v3of mn) (v3of mx)) cells
   else @mc_lattice FOps (mkBox3 (v3of mn) (v3of mx)) step.
 
-Definition uok3 (c : ucase3) : bool :=
+(* the model's f: the observed value at the lattice point with these coordinates (nearest observed
+   coordinate per axis, so that evaluation coordinates differing by rounding still pair up) *)
+Fixpoint nearest (x : float) (l : list float) (i best : nat) (bd : float) : nat :=
+  match l with
+  | [] => best
+  | y :: r => let d := PrimFloat.abs (x - y)%float in
+              if PrimFloat.ltb d bd then nearest x r (S i) i d else nearest x r (S i) best bd
+  end.
+Definition index_near (x : float) (l : list float) : nat := nearest x l 0 0 infinity.
+
+Definition uok3 (c : ucase3) : bool * bool :=
   let '(id, mn, mx, cells, step, api, (xs, ys, zs), vals, gt) := c in
   let L := ulattice mn mx cells step api in
   let nx := lnx L in let ny := lny L in let nz := lnz L in
-  (* the lattice *)
-  (length xs =? S nx)%nat && (length ys =? S ny)%nat && (length zs =? S nz)%nat &&
-  all2 fsame (map (fun x => (wx (lbase L) + @natT FOps x * wx (linc L))%float) (seq 0 (S nx))) xs &&
-  all2 fsame (map (fun y => @acc FOps (wy (lbase L)) (wy (linc L)) y) (seq 0 (S ny))) ys &&
-  all2 fsame (map (fun z => @acc FOps (wz (lbase L)) (wz (linc L)) z) (seq 0 (S nz))) zs &&
-  (* the walk, on the observed values *)
+  let sc := size3 mn (let '(x, y, z) := mx in (PrimFloat.abs x + PrimFloat.abs y + PrimFloat.abs z)%float) in
+  let mxs := map (fun x => (wx (lbase L) + @natT FOps x * wx (linc L))%float) (seq 0 (S nx)) in
+  let mys := map (fun y => @acc FOps (wy (lbase L)) (wy (linc L)) y) (seq 0 (S ny)) in
+  let mzs := map (fun z => @acc FOps (wz (lbase L)) (wz (linc L)) z) (seq 0 (S nz)) in
   let f := fun p : V3 FOps =>
-             nth (index_of (wy p) ys 0 * S nz + index_of (wz p) zs 0) (nth (index_of (wx p) xs 0) vals []) 0%float in
-  all2 tri_same (@marching_cubes FOps L f) gt.
-Definition umismatches3 (cs : list ucase3) : list N :=
-  map (fun c : ucase3 => let '(id, _, _, _, _, _, _, _, _) := c in id) (filter (fun c => negb (uok3 c)) cs).
+             nth (index_near (wy p) ys * S nz + index_near (wz p) zs) (nth (index_near (wx p) xs) vals []) 0%float in
+  let tris := @marching_cubes FOps L f in
+  (* the lattice: counts exactly, coordinates up to 1e-12 of the size (bit exact reported separately) *)
+  let counts := (length xs =? S nx)%nat && (length ys =? S ny)%nat && (length zs =? S nz)%nat in
+  (counts && all2 (closeS sc) mxs xs && all2 (closeS sc) mys ys && all2 (closeS sc) mzs zs && all2 (tri_close sc) tris gt,
+   counts && all2 fsame mxs xs && all2 fsame mys ys && all2 fsame mzs zs && all2 tri_same tris gt).
+Definition uid3 (c : ucase3) : N := let '(id, _, _, _, _, _, _, _, _) := c in id.
+Definition umismatches3 (cs : list ucase3) : list N := map uid3 (filter (fun c => negb (fst (uok3 c))) cs).
+Definition uinexact3 (cs : list ucase3) : list N := map uid3 (filter (fun c => negb (snd (uok3 c))) cs).
